@@ -15,6 +15,8 @@ mod beacon;
 mod keys;
 mod dissect;
 mod cfgmerge;
+mod negotiate;
+mod envelope;
 
 use std::os::raw::{c_char, c_int};
 use std::panic::{catch_unwind, AssertUnwindSafe};
@@ -42,6 +44,8 @@ fn dispatch(args: &[String]) -> i32 {
         ("keys", _) => keys::run(&args[2..]),
         ("dissect", _) => dissect::run(&args[2..]),
         ("cfgmerge", _) => cfgmerge::run(&args[2..]),
+        ("negotiate", _) => negotiate::run(&args[2..]),
+        ("envelope", _) => envelope::run(&args[2..]),
         _ => {
             eprintln!("usage: vpnharness <driver> <mode> ...");
             return 2;
